@@ -201,4 +201,36 @@ def c12(run, ck):
                 assumptions=["the default stack sizes of this machine (8 MB main thread, 2 MB spawned thread)"])
 
 
-PIPELINES = {"C12": c12, "C10": c10, "C09": c09, "C03": c03, "C04": c04, "C05": c05, "C06": c06, "C07": c07, "C08": c08}
+def parse_stage(run, ck, n_quick, n_thorough):
+    out = os.path.join(run.work, "parse.ndjson")
+    run.drive("parse", n_thorough if run.thorough else n_quick, out)
+    verdicts, recs = run.validate(out, "Trace_Parse", cfg="Trace_Parse.cfg", parts=8, label="parse")
+    simple_violations(run, ck, verdicts, recs, "parse", describe=lambda rec, v: parse_shape(rec))
+
+
+def parse_shape(rec):
+    """Which constructs a source uses: part of the finding key."""
+    text = rec.get("text", "")
+    feats = []
+    for tok, name in (("match", "match"), ("?", "tern"), ("[", "bracket"), ("{", "brace"), (".", "dot"), ("(", "paren"), ("\n", "newline")):
+        if tok in text:
+            feats.append(name)
+    return "+".join(feats[:4])
+
+
+def c02(run, ck):
+    parse_stage(run, ck, 300, 6000)
+    eval_stage(run, ck, "parse_eval", 600, 15000)
+    return dict(rule="every flat sequence of <= 2 (thorough: 3) binary/ternary operators with unary prefixes incl. ill-formed ones: real tokens parsed by Grammar!Parse must give the exposed tree and accept/reject must agree; "
+                     "generated deeper trees rendered with minimal, full and random parentheses and whitespace must come back as the intended tree and evaluate identically",
+                assumptions=["the token stream is taken from the real tokenizer (checked separately by C13 and C18)"])
+
+
+def c18(run, ck):
+    parse_stage(run, ck, 500, 10000)
+    return dict(rule="generated expressions rendered with random spaces, tabs, newlines and multi-byte text: token spans increasing / inside the source / re-lexing to the same token; every node span equals the span the grammar assigns "
+                     "(first token start to last token end); sampled sub-expressions compiled on their own give the same subtree; corrupted variants: error locations inside the source",
+                assumptions=["match patterns carry no span obligation"])
+
+
+PIPELINES = {"C02": c02, "C18": c18, "C12": c12, "C10": c10, "C09": c09, "C03": c03, "C04": c04, "C05": c05, "C06": c06, "C07": c07, "C08": c08}
